@@ -41,6 +41,12 @@ fn load_known_findings() -> Vec<KnownFinding> {
     }
 }
 
+/// where evidence/ and replays/ go: /verif, unless EXPSIM_OUT_ROOT redirects them
+/// (scratch runs against a patched copy of the tree must not overwrite the real evidence)
+fn out_root() -> PathBuf {
+    std::env::var("EXPSIM_OUT_ROOT").map(PathBuf::from).unwrap_or_else(|_| Path::new(VERIF_ROOT).to_path_buf())
+}
+
 pub fn base_seed() -> u64 {
     std::env::var("VERIF_SEED").ok().and_then(|s| s.parse().ok()).unwrap_or(1)
 }
@@ -379,7 +385,7 @@ pub fn conclude(plan: &CheckPlan, scenarios: &BTreeMap<u64, Scenario>, out: &Bat
     }
 
     let mut violation_lines = Vec::new();
-    let replay_dir = Path::new(VERIF_ROOT).join("replays");
+    let replay_dir = out_root().join("replays");
     std::fs::create_dir_all(&replay_dir).ok();
     let mut class_reports = Vec::new();
     for (n, ((oracle, _ck), list)) in classes.iter().enumerate() {
@@ -504,7 +510,7 @@ pub fn conclude(plan: &CheckPlan, scenarios: &BTreeMap<u64, Scenario>, out: &Bat
         "wall_s": wall,
         "violations": n_classes,
     });
-    let evdir = Path::new(VERIF_ROOT).join("evidence");
+    let evdir = out_root().join("evidence");
     std::fs::create_dir_all(&evdir).ok();
     let evpath = evdir.join(format!("{property}.json"));
     if let Err(e) = std::fs::write(&evpath, serde_json::to_string_pretty(&evidence).unwrap()) {
@@ -779,12 +785,12 @@ pub fn selftest() -> i32 {
         println!("SELFTEST C19: scenario list differs between two generations");
         bad += 1;
     }
-    let slice: Vec<Scenario> = a.into_iter().take(40 * 12).collect();
-    let r1 = run_batch(&slice, 40, 16);
+    let slice: Vec<Scenario> = a.into_iter().take(50 * 12).collect();
+    let r1 = run_batch(&slice, 50, 16);
     let r2 = run_batch(&slice, 17, 3);
     let (f1, f2) = (fingerprint(&r1), fingerprint(&r2));
     let diff = f1.iter().filter(|(k, v)| f2.get(k) != Some(v)).count() + f2.len().abs_diff(f1.len());
-    println!("SELFTEST C19: {} scenarios, run with 16 workers/chunk 40 and 3 workers/chunk 17: {} differences, harness errors {}/{}", f1.len(), diff, r1.harness_errors.len(), r2.harness_errors.len());
+    println!("SELFTEST C19: {} scenarios, run with 16 workers/chunk 50 and 3 workers/chunk 17: {} differences, harness errors {}/{}", f1.len(), diff, r1.harness_errors.len(), r2.harness_errors.len());
     if diff > 0 || f1.len() != slice.len() || !r1.harness_errors.is_empty() || !r2.harness_errors.is_empty() {
         bad += 1;
         for (k, v) in f1.iter().filter(|(k, v)| f2.get(k) != Some(v)).take(5) {
